@@ -168,6 +168,68 @@ pub fn apply(bytes: &[u8], sp: &[Span], mu: &Mutation, chunk: usize) -> Option<V
     if mu.m.starts_with("inner-") {
         return apply_inner_paths(bytes, s, &mu.m, chunk);
     }
+    if let Some(spec) = mu.m.strip_prefix("header:") {
+        // s is the commitments blob. A different statement header (trace length exponent, blowup, folding factor, remainder degree)
+        // with the rest of the proof kept structurally consistent with it: as many FRI layers and layer commitments as the
+        // verifier will expect for that header (Fri.tla NumLayers, computed by TLC)
+        let v: Vec<usize> = spec.split(',').filter_map(|x| x.parse().ok()).collect();
+        if v.len() != 5 || v[4] > 200 {
+            return None;
+        }
+        let (ln, blowup, fold, rem, layers) = (v[0], v[1], v[2], v[3], v[4]);
+        let find = |n: &str| sp.iter().find(|x| x.name == n);
+        let (s_ln, s_b, s_f, s_r, s_nl) = (find("ti.len_log2")?, find("opt.blowup")?, find("opt.folding")?, find("opt.remainder")?, find("fri.num_layers")?);
+        if bytes[s_ln.off] as usize == ln && bytes[s_b.off] as usize == blowup && bytes[s_f.off] as usize == fold && bytes[s_r.off] as usize == rem {
+            return None;
+        }
+        let n = bytes[s_nl.off] as usize;
+        let group = |k: usize| -> Option<(usize, usize)> {
+            let lv = sp.iter().find(|x| x.name == format!("fl{}.values", k))?;
+            let lp = sp.iter().find(|x| x.name == format!("fl{}.paths", k))?;
+            Some((lv.off, lp.off + lp.width + lp.len))
+        };
+        let stand_in = {
+            let lv = find("cq.values")?;
+            let lp = find("cq.paths")?;
+            (lv.off, lp.off + lp.width + lp.len)
+        };
+        let mut groups: Vec<Vec<u8>> = vec![];
+        for k in 0..layers {
+            let (a, e) = if k < n { group(k + 1)? } else if n > 0 { group(n)? } else { stand_in };
+            groups.push(bytes[a..e].to_vec());
+        }
+        let fri_end = if n > 0 { group(n)?.1 } else { s_nl.off + 1 };
+        let mut b = bytes[..s_nl.off].to_vec();
+        b.push(layers as u8);
+        for g in &groups {
+            b.extend_from_slice(g);
+        }
+        b.extend_from_slice(&bytes[fri_end..]);
+        // commitments: trace segments, constraints, one per layer, remainder
+        let start = s.off + s.width;
+        let mut digs: Vec<Vec<u8>> = bytes[start..start + s.len].chunks(chunk).map(|c| c.to_vec()).collect();
+        if digs.len() < n + 2 || s.len % chunk != 0 {
+            return None;
+        }
+        let last = digs.pop()?;
+        let fixed = digs.len() - n; // trace segments + constraint commitment
+        let layer_digs: Vec<Vec<u8>> = (0..layers).map(|k| if k < n { digs[fixed + k].clone() } else { digs.last().cloned().unwrap_or(last.clone()) }).collect();
+        digs.truncate(fixed);
+        digs.extend(layer_digs);
+        digs.push(last);
+        let body: Vec<u8> = digs.concat();
+        if body.len() > 0xffff {
+            return None;
+        }
+        let mut pre = vec![0u8; s.width];
+        wr(&mut pre, 0, s.width, body.len() as u64);
+        b.splice(s.off..start + s.len, pre.into_iter().chain(body));
+        b[s_ln.off] = ln as u8;
+        b[s_b.off] = blowup as u8;
+        b[s_f.off] = fold as u8;
+        b[s_r.off] = rem as u8;
+        return Some(b);
+    }
     if mu.m.starts_with("add-layer-copies:") || mu.m == "remove-last-layer" {
         // s is fri.num_layers; the layer groups fl<k>.values / fl<k>.paths follow it
         let n = rd(bytes, s.off, 1)? as usize;
